@@ -9,6 +9,8 @@
 id=$1; wt=$2; out=$3
 cd $wt || exit 2
 export CARGO_NET_OFFLINE=true
+# (the pool-manager test binary links libpython through a dev-dependency; whichever interpreter the build picked up, make its library loadable)
+export LD_LIBRARY_PATH=/root/.pyenv/versions/3.13.0/lib:/root/miniconda/lib:${LD_LIBRARY_PATH:-}
 python3 - "$out/patch.diff" > $out/_src.diff <<'PY'
 import sys,re
 txt=open(sys.argv[1]).read()
